@@ -107,6 +107,23 @@ def balanced(src: str) -> bool:
     return depth == 0
 
 
+def _open_seq_extent(ref: AST, src: str) -> AST:
+    """An unparenthesised Tuple / MatchSequence fragment takes the wrapper's parentheses as its own when embedded: give it back the
+    extent of its own tokens (first to last significant token, a trailing comma included)."""
+
+    if isinstance(ref, (ast.Tuple, ast.MatchSequence)) and ref.lineno < 1:
+        toks = [t for t in tokenize.generate_tokens(io.StringIO(src).readline)
+                if t.type not in _SKIP_TOK and t.type != tokenize.COMMENT]
+
+        if toks:
+            lines = src.split('\n')
+            (sl, sc), (el, ec) = toks[0].start, toks[-1].end
+            ref.lineno, ref.col_offset = sl, c2b(lines[sl - 1], sc)
+            ref.end_lineno, ref.end_col_offset = el, c2b(lines[el - 1], ec)
+
+    return ref
+
+
 def parse_ref(src: str, root_ast: AST) -> AST:
     """CPython parse of the whole `src` for the kind of `root_ast`. Raises SyntaxError (or ValueError etc.) if CPython
     rejects, NoRef if the kind has no reference embedding here."""
@@ -148,7 +165,7 @@ def parse_ref(src: str, root_ast: AST) -> AST:
             return _wrap_parse('_[\n', src, '\n]', ('body', 0, 'value', 'slice'))
 
         try:
-            return _wrap_parse('(\n', src, '\n)', ('body',), 'eval')
+            return _open_seq_extent(_wrap_parse('(\n', src, '\n)', ('body',), 'eval'), src)
         except SyntaxError:
             if cls is ast.Tuple:  # may contain arglike starred `*not a` valid only in subscript
                 return _wrap_parse('_[\n', src, '\n]', ('body', 0, 'value', 'slice'))
@@ -178,7 +195,7 @@ def parse_ref(src: str, root_ast: AST) -> AST:
         if cls is ast.MatchStar:
             return _wrap_parse('match _:\n case [\n', src, '\n]: pass', ('body', 0, 'cases', 0, 'pattern', 'patterns', 0))
 
-        return _wrap_parse('match _:\n case (\n', src, '\n): pass', ('body', 0, 'cases', 0, 'pattern'))
+        return _open_seq_extent(_wrap_parse('match _:\n case (\n', src, '\n): pass', ('body', 0, 'cases', 0, 'pattern')), src)
 
     if cls is ast.arguments:
         try:
